@@ -188,6 +188,9 @@ type Run struct {
 	initDepth          int
 	wantInit           *ssa.Function
 	chanCount          int
+	hooks              []opHook
+	visibleOps         int
+	inHook             bool
 	tmpCount           int
 	ownParams          bool
 	switches           int
